@@ -197,9 +197,14 @@ def h_buffered(c, ptype):
     pkt = c.record("QuicPacket", packet_type=c.enum(PT, ptype), isserver=isserver, dcid=dcid, scid=scid, supported_version=c.bytes("versions", max_len=16))
     decrypted, fresh_tls = [], []
     c.summary_override(QS + ".decrypt_packet", lambda ctx, slf, p: decrypted.append(p))
-    c.summary_override(QS + ".handle_frame", lambda ctx, slf, f: None)
+    crypto_calls = []
+    if ptype == "VERSION_NEG":
+        # the ONE call of handle_frame outside decrypt_packet's barrier: executed from its real body on the real pseudo frame
+        c.summary_override(QS + ".handle_crypto_frame", lambda ctx, slf, f: crypto_calls.append(f))
+    else:
+        c.summary_override(QS + ".handle_frame", lambda ctx, slf, f: None)
+        c.summary_override(QF + ".PseudoVersionNegotiationFrame.__init__", lambda ctx, cls, **k: ctx.make_obj(cls))
     c.summary_override(QT + ".__init__", lambda ctx, cls: fresh_tls.append(ctx.make_obj(cls)) or fresh_tls[-1])
-    c.summary_override(QF + ".PseudoVersionNegotiationFrame.__init__", lambda ctx, cls, **k: ctx.make_obj(cls))
     old_tls = c.opaque("tls_session_before")
     old_decs, old_keys = {"Initial": c.opaque("d")}, {"client_initial_hp": c.bytes("hp", length=16)}
     s = full_qsession(c, packet_buffer_quic=[pkt], tls_session=old_tls, decryptors=old_decs, keys=old_keys, hash_fun=c.opaque("h"), cipher=c.opaque("ci"),
@@ -219,6 +224,10 @@ def h_buffered(c, ptype):
     c.ensure("largest_received_packet_numbers_untouched", all(g(n) is tables[n] and set(tables[n]) == set(before[n]) and
                                                               all(c.same_object(tables[n][k], before[n][k]) for k in before[n]) for n in tables))
     c.ensure("buffer_emptied", len(g("packet_buffer_quic")) == 0)
+    if ptype == "VERSION_NEG":
+        ob = g("output_buffer")
+        c.ensure("version_negotiation_frame_only_buffered", not crypto_calls and len(ob) == 1 and c.isinstance(ob[0], QF + ".PseudoVersionNegotiationFrame")
+                 and c.get(ob[0], "src_packet") is pkt)
     c.ensure("decrypted_iff_protected_type", (decrypted == [pkt]) == (ptype not in ("RETRY", "VERSION_NEG")) and len(decrypted) <= 1)
     if ptype == "RETRY":
         c.ensure("retry.fresh_tls_session", len(fresh_tls) == 1 and g("tls_session") is fresh_tls[0])
